@@ -447,3 +447,138 @@ Proof.
     with (sin (86998 / 10000 - 67665 / 10000 / 8) ^ 2 + sin (67665 / 10000 + 86998 / 10000 / 8) ^ 2 - 2) by field.
   interval with (i_prec 60).
 Qed.
+
+
+(* ================= the tabulated values are global optima: lower (h1: upper) bounds for every input ================= *)
+Lemma Rsum_map_nonneg {A} (f : A -> R) l : (forall a, In a l -> 0 <= f a) -> 0 <= Rsum (map f l).
+Proof.
+  intro H. apply Rsum_nonneg. apply Forall_forall. intros y Hy. apply in_map_iff in Hy.
+  destruct Hy as (a & <- & Ha). apply H. exact Ha.
+Qed.
+
+Definition lower_bounded (f : list R) (v : R) : Prop := exists y, f = [y] /\ v <= y.
+
+Theorem min_sphere (x : list R) : lower_bounded (spec_bm_sphere x) 0.
+Proof. eexists. split; [reflexivity|]. numR. apply Rsum_map_nonneg. intros. apply pow2_ge_0. Qed.
+
+Theorem min_cigar (x : list R) : lower_bounded (spec_bm_cigar x) 0.
+Proof.
+  eexists. split; [reflexivity|]. numR.
+  pose proof (pow2_ge_0 (nth 0 x 0)). pose proof (Rsum_map_nonneg (fun a : R => a ^ 2) (tl x) (fun a _ => pow2_ge_0 a)). nra.
+Qed.
+
+Theorem min_rosenbrock (x : list R) : lower_bounded (spec_bm_rosenbrock x) 0.
+Proof.
+  eexists. split; [reflexivity|]. numR. apply Rsum_map_nonneg. intros [a b] _. cbn [fst snd].
+  pose proof (pow2_ge_0 (1 - a)). pose proof (pow2_ge_0 (b - a ^ 2)). lra.
+Qed.
+
+Theorem min_himmelblau (x : list R) : lower_bounded (spec_bm_himmelblau x) 0.
+Proof.
+  eexists. split; [reflexivity|]. numR.
+  match goal with |- 0 <= ?a ^ 2 + ?b ^ 2 => pose proof (pow2_ge_0 a); pose proof (pow2_ge_0 b); lra end.
+Qed.
+
+Lemma ten_N_as_sum {A} (l : list A) (f : A -> R) :
+  10 * INR (length l) + Rsum (map f l) = Rsum (map (fun a => 10 + f a) l).
+Proof. rewrite Rsum_map_plus, Rsum_map_const. ring. Qed.
+
+Theorem min_rastrigin (x : list R) : lower_bounded (spec_bm_rastrigin x) 0.
+Proof.
+  eexists. split; [reflexivity|]. numR. rewrite IZR_of_nat, ten_N_as_sum. apply Rsum_map_nonneg. intros a _.
+  pose proof (pow2_ge_0 a). pose proof (COS_bound (2 * PI * a)). lra.
+Qed.
+
+Theorem min_rastrigin_skew (x : list R) : lower_bounded (spec_bm_rastrigin_skew x) 0.
+Proof.
+  eexists. split; [reflexivity|]. numR. cbv zeta. rewrite IZR_of_nat, ten_N_as_sum. apply Rsum_map_nonneg. intros a _.
+  set (y := if Rltb 0 a then 10 * a else a). pose proof (pow2_ge_0 y). pose proof (COS_bound (2 * PI * y)). lra.
+Qed.
+
+Theorem min_rastrigin_scaled (x : list R) : lower_bounded (spec_bm_rastrigin_scaled x) 0.
+Proof.
+  eexists. split; [reflexivity|]. unfold indexed. numR. cbv zeta. rewrite IZR_of_nat.
+  replace (length x) with (length (combine (seq 0 (length x)) x)) at 1
+    by (rewrite combine_length, seq_length, Nat.min_id; reflexivity).
+  rewrite ten_N_as_sum. apply Rsum_map_nonneg. intros [i a] _. cbn [fst snd].
+  match goal with |- 0 <= 10 + (?u ^ 2 - 10 * cos ?v) => pose proof (pow2_ge_0 u); pose proof (COS_bound v); lra end.
+Qed.
+
+Theorem min_bohachevsky (x : list R) : lower_bounded (spec_bm_bohachevsky x) 0.
+Proof.
+  eexists. split; [reflexivity|]. norm_dec. numR. apply Rsum_map_nonneg. intros [a b] _. cbn [fst snd].
+  pose proof (pow2_ge_0 a). pose proof (pow2_ge_0 b).
+  pose proof (COS_bound (3 * PI * a)). pose proof (COS_bound (4 * PI * b)). lra.
+Qed.
+
+Theorem min_schaffer (x : list R) : lower_bounded (spec_bm_schaffer x) 0.
+Proof.
+  eexists. split; [reflexivity|]. norm_dec. numR. apply Rsum_map_nonneg. intros [a b] _. cbn [fst snd]. cbv zeta.
+  apply Rmult_le_pos; [apply Rpow_total_nonneg|].
+  match goal with |- 0 <= ?s ^ 2 + 1 => pose proof (pow2_ge_0 s); lra end.
+Qed.
+
+Lemma Rprod_abs_le_1 l : Forall (fun c => Rabs c <= 1) l -> Rabs (fold_right Rmult 1 l) <= 1.
+Proof.
+  induction 1 as [|c l Hc Hl IH]; cbn [fold_right]; [rewrite Rabs_R1; lra|].
+  rewrite Rabs_mult. pose proof (Rabs_pos c). pose proof (Rabs_pos (fold_right Rmult 1 l)). nra.
+Qed.
+
+Theorem min_griewank (x : list R) : lower_bounded (spec_bm_griewank x) 0.
+Proof.
+  eexists. split; [reflexivity|]. numR.
+  pose proof (Rsum_map_nonneg (fun a : R => a ^ 2) x (fun a _ => pow2_ge_0 a)) as S.
+  match goal with |- 0 <= _ - ?p + 1 => assert (P : Rabs p <= 1) end.
+  { apply Rprod_abs_le_1. apply Forall_forall. intros c Hc. apply in_map_iff in Hc. destruct Hc as (q & <- & _).
+    apply Rabs_le. apply COS_bound. }
+  unfold Rabs in P. destruct (Rcase_abs _) in P; lra.
+Qed.
+
+Lemma Rsum_map_le_const {A} (f : A -> R) l c : (forall a, In a l -> f a <= c) -> Rsum (map f l) <= INR (length l) * c.
+Proof.
+  intro H. unfold Rsum. induction l as [|a l IH]; [cbn; lra|]. cbn [map fold_right length]. rewrite S_INR.
+  pose proof (H a (or_introl eq_refl)). assert (fold_right Rplus 0 (map f l) <= INR (length l) * c) by (apply IH; intros; apply H; right; assumption).
+  lra.
+Qed.
+
+Lemma exp_le_mono a b : a <= b -> exp a <= exp b.
+Proof. intros [H|H]; [left; apply exp_increasing; exact H|right; rewrite H; reflexivity]. Qed.
+
+Theorem min_ackley (x : list R) : (1 <= length x)%nat -> lower_bounded (spec_bm_ackley x) 0.
+Proof.
+  intro Hn. eexists. split; [reflexivity|]. norm_dec. numR. rewrite IZR_of_nat.
+  assert (N : 0 < INR (length x)) by (apply lt_0_INR; lia).
+  set (s := sqrt _).
+  assert (E1 : exp (- (1 / 5) * s) <= 1).
+  { assert (Hp : 0 <= s) by apply sqrt_pos. pose proof (exp_le_mono (- (1 / 5) * s) 0 ltac:(lra)) as E.
+    rewrite exp_0 in E. exact E. }
+  set (m := 1 / INR (length x) * _).
+  assert (M : m <= 1).
+  { unfold m. pose proof (Rsum_map_le_const (fun xi : R => cos (2 * PI * xi)) x 1 (fun a _ => proj2 (COS_bound _))) as B.
+    apply Rmult_le_reg_l with (INR (length x)); [exact N|].
+    replace (INR (length x) * (1 / INR (length x) * Rsum (map (fun xi : R => cos (2 * PI * xi)) x)))
+      with (Rsum (map (fun xi : R => cos (2 * PI * xi)) x)) by (field; lra). lra. }
+  pose proof (exp_le_mono m 1 M) as E2.
+  lra.
+Qed.
+
+(* h1 is maximised: its values never exceed the tabulated 2 *)
+Theorem max_h1 (x : list R) : exists y, spec_bm_h1 x = [y] /\ y <= 2.
+Proof.
+  eexists. split; [reflexivity|]. norm_dec. numR. cbv zeta.
+  set (a := sin _). set (b := sin _). set (d := sqrt _).
+  assert (0 <= d) by apply sqrt_pos.
+  assert (A : 0 <= a ^ 2 <= 1).
+  { pose proof (SIN_bound (nth 0 x 0 - nth 1 x 0 / 8)). fold a in H0. split; [apply pow2_ge_0|nra]. }
+  assert (B : 0 <= b ^ 2 <= 1).
+  { pose proof (SIN_bound (nth 1 x 0 + nth 0 x 0 / 8)). fold b in H0. split; [apply pow2_ge_0|nra]. }
+  apply Rmult_le_reg_r with (d + 1); [lra|].
+  unfold Rdiv. rewrite Rmult_assoc, Rinv_l, Rmult_1_r by lra. nra.
+Qed.
+
+(* on the Pareto-optimal front of DTLZ2 (x_M.. = 1/2) the objective vector lies on the unit sphere *)
+Theorem dtlz2_front_unit (x : list R) M : Forall (fun v => v = 1 / 2) (dtlz_xm x M) -> enorm (spec_bm_dtlz2 x M) = 1.
+Proof.
+  intro H. rewrite dtlz2_norm. unfold dtlz_g2. norm_dec. numR.
+  rewrite Rsum_map_zero; [ring|]. intros a Ha. rewrite Forall_forall in H. rewrite (H a Ha). lra.
+Qed.
